@@ -470,7 +470,7 @@ package rapid
 // C05 / C08 ("the next invocation is served by freshly started processes", "no trace of earlier generations"): the closed exit channel
 // is what a reset waits for; the cancellation that belongs to an exit is applied before the exit is announced, so that it cannot
 // land in the generation the reset has meanwhile set up
-//@   loop for event := range events: invariant [an-exit-is-announced-only-after-its-cancellation-was-applied] delta(FlowsCancelled) >= 1 ==> last(FlowsCancelled) < last(TerminationHandled)
+//@   loop for event := range events: invariant [an-exit-is-announced-only-after-its-cancellation-was-applied] delta(FlowsCancelled) >= 1 ==> last(FlowsCancelled) < last(TerminationHandled) && last(TerminationHandled) <= now()
 //@   loop for event := range events: invariant [earlier-generations-do-not-disturb] delta(StoreFatalAny) <= delta(ExitOfCurrentGeneration) && delta(FlowsCancelled) <= delta(ExitOfCurrentGeneration) && delta(GenerationChecked) == delta(ExitOfCurrentGeneration) + delta(ExitOfEarlierGeneration)
 
 // the failure message: error type = first recorded fatal error, else Sandbox.Failure
